@@ -592,3 +592,69 @@ func (E *Engine) doGo(st *State, x *ssa.Go) []*State {
 	st.log = append(st.log, CallEvent{Label: label, Args: all, Heap: copyHeap(st.heap)})
 	return nil
 }
+
+// ---------------------------------------------------------------------------
+// Type invariants over immutable fields: `type T` + `invariant <expr over self>`.
+// Assumed for every non-nil *T obtained from a heap load or a call result;
+// asserted for every *T handed to a callee. Sound because the fields an invariant
+// mentions must be declared immutable (checked when the contracts are loaded).
+
+func (E *Engine) typeInvsOf(T types.Type) (*TypeSpec, types.Type) {
+	p, ok := types.Unalias(T).Underlying().(*types.Pointer)
+	if !ok {
+		return nil, nil
+	}
+	k := namedKey(p.Elem())
+	if k == "" {
+		return nil, nil
+	}
+	ts := E.CS.Types[k]
+	if ts == nil || len(ts.Invs) == 0 {
+		return nil, nil
+	}
+	return ts, p.Elem()
+}
+
+func (E *Engine) typeInvFormulas(st *State, v *Val) []string {
+	if v == nil || v.F != nil || v.S == "" {
+		return nil
+	}
+	ts, _ := E.typeInvsOf(v.T)
+	if ts == nil {
+		return nil
+	}
+	var out []string
+	for _, cl := range ts.Invs {
+		ev := &cenv{E: E, st: st, vars: map[string]*Val{"self": v}, heap: st.heap, ctx: cl.Ctx, fc: E.cur}
+		out = append(out, implies(not(eq(v.S, "0")), ev.evalBool(cl.Expr)))
+	}
+	return out
+}
+
+func (E *Engine) assumeTypeInvs(st *State, v *Val) {
+	if v == nil {
+		return
+	}
+	if v.F != nil {
+		for _, f := range v.F {
+			E.assumeTypeInvs(st, f)
+		}
+		return
+	}
+	st.assume(E.typeInvFormulas(st, v)...)
+}
+
+func (E *Engine) checkTypeInvs(st *State, in ssa.Instruction, v *Val, what string) {
+	if v == nil {
+		return
+	}
+	if v.F != nil {
+		for _, f := range v.F {
+			E.checkTypeInvs(st, in, f, what)
+		}
+		return
+	}
+	for i, f := range E.typeInvFormulas(st, v) {
+		E.oblige(st, "type-inv", fmt.Sprintf("%s.%d", E.site(in), i), f, "type invariant of "+shortTypeKey(v.T)+" holds for "+what, E.pos(in), nil)
+	}
+}
